@@ -55,6 +55,8 @@ type Network struct {
 	OnSend func(m *Msg)
 	// OnResponse lets monitors see every response produced by a handler.
 	OnResponse func(m *Msg)
+	// OnDeliver is called right before a request's handler runs.
+	OnDeliver func(m *Msg)
 	// OnReply lets monitors see every response handed back to its sender.
 	OnReply func(m *Msg)
 }
@@ -190,6 +192,9 @@ func (n *Network) runHandler(m *Msg, dup bool) {
 		return
 	}
 	tr := tn.Tr
+	if n.OnDeliver != nil {
+		n.OnDeliver(m)
+	}
 	name := fmt.Sprintf("handle%s<n%d", m.Kind, m.From)
 	if dup {
 		name += "/dup"
